@@ -562,6 +562,71 @@ case("for over a generator expression with a condition; the body continues and b
         return out, seen, x
 ''', 0)
 
+case("loop over a module-level table of (predicate, method name) rows, getattr with the name from the row, return inside the loop", '''
+    def _is_int(x):
+        return isinstance(x, int)
+    def _is_str(x):
+        return isinstance(x, str)
+    _TABLE = (
+        (_is_int, "on_int"),
+        (_is_str, "on_str"),
+    )
+    class H:
+        def on_int(self, x):
+            return ("int", x + 1)
+        def on_str(self, x):
+            return ("str", x.upper())
+        def find(self, x):
+            for pred, name in _TABLE:
+                if pred(x):
+                    handler = getattr(self, name)
+                    return handler
+            return None
+        def run(self, x):
+            h = self.find(x)
+            if h is None:
+                return ("none", x)
+            return h(x)
+    def main():
+        h = H()
+        return [h.run(1), h.run("a"), h.run(2.5)]
+''', 0)
+
+case("defaults collected in a local dictionary and applied by one loop read like setdefault at each store", '''
+    def build(kind, default, variadic, **kwargs):
+        derived = {}
+        if default is None:
+            names = ["pos"]
+        else:
+            names = ["--opt"]
+            if kind is bool:
+                derived["action"] = "store_true"
+            else:
+                derived["default"] = default
+        if variadic:
+            derived["nargs"] = "*"
+        for key, value in derived.items():
+            kwargs.setdefault(key, value)
+        if kwargs.get("action") != "store_true":
+            kwargs.setdefault("type", kind)
+        return names, list(kwargs.items())
+    def main():
+        return [build(int, None, False), build(bool, False, False), build(int, 3, True, default=9, help="h"), build(str, "x", False, action="store_true")]
+''', 0)
+
+case("the collected defaults are read before they are applied: left alone", '''
+    def build(flag, **kwargs):
+        derived = {}
+        if flag:
+            derived["a"] = 1
+        n = len(derived)
+        for key, value in derived.items():
+            kwargs.setdefault(key, value)
+        return n, kwargs
+    def main():
+        return [build(True), build(False, a=5)]
+''', 0)
+
 # a generator imported from a sibling module (offered to normalise() by the program loader)
 IMPORTED = textwrap.dedent('''
     def pop_until_empty(ids):
